@@ -180,7 +180,8 @@ class Rule(object):
         uri = uri_reference(val)
         try:
             validator.validate(uri)
-            is_valid = True
+            # an authority such as ":80" or "user@" yields an empty, not an absent, host
+            is_valid = bool(uri.host)
         except (InvalidComponentsError, MissingComponentError, UnpermittedComponentError) as ex:
             logger.debug(ex)
         return is_valid
